@@ -75,7 +75,7 @@ ASSUMPTIONS = [
     'client clause captures the frame by overriding client.send on a UDP client object that never transmits',
     'requests are encoded and replies decoded by the independent reference codec (vp/refcodec.py)',
 ]
-MIN_EVALUATIONS = {'quick': 3000, 'thorough': 30000}
+MIN_EVALUATIONS = {'quick': 2500, 'thorough': 30000}
 
 PERSONALITIES = ('none', 'simple', 'single_num', 'single_addr', 'multi')
 ROUTE_KINDS = ('absent', 'empty', 'equal', 'port', 'link', 'linkkind', 'append', 'drop_or_prepend', 'swap_or_other')
@@ -1152,25 +1152,29 @@ def shard_falsey(job):
     return s
 
 
+def shard(job):
+    return {'grid': shard_grid, 'free': shard_free, 'cli': shard_cli, 'falsey': shard_falsey}[job[0]](job[1])
+
+
 def run(tier, seed):
     thorough = tier == 'thorough'
     stats = Stats()
-    nsh = 32 if thorough else 16
-    reps = 20 if thorough else 3
-    common.parallel(shard_falsey, [0], stats=stats)
-    common.parallel(shard_grid, [(seed, i, nsh, reps) for i in range(nsh)], stats=stats)
+    nsh = 32
+    reps = 20 if thorough else 2
+    # (the first case Hypothesis generates in every run is the all-minimal one: never fewer than 2 per grid cell /
+    # 3 per command line)
+    if thorough:
+        free = [(seed, i, 400, 2500, 300) for i in range(32)]
+        cli = [(seed, i, k, 6) for i, k in enumerate(CLI_FIXED)] + [(seed, 50 + i, None, 6) for i in range(20)]
+    else:
+        free = [(seed, i, 30, 100, 30) for i in range(16)]
+        cli = [(seed, i, k, 3) for i, k in enumerate(CLI_FIXED)] + [(seed, 50 + i, None, 3) for i in range(4)]
+    jobs = ([('cli', j) for j in cli] + [('falsey', 0)] + [('free', j) for j in free]
+            + [('grid', (seed, i, nsh, reps)) for i in range(nsh)])
+    common.parallel(shard, jobs, stats=stats)
     stats.exhaustive['filter-grid'] = ('every (personality kind, route path kind, service) triple of %d x %d x %d = %d is the '
                                        'first request of %d drawn cases (values, tags, ports, links drawn)'
                                        % (len(PERSONALITIES), len(ROUTE_KINDS), len(SERVICES), len(GRID), reps))
     stats.exhaustive['text-falsey'] = 'the JSON texts %s' % (', '.join(FALSEY_TEXTS),)
-    if thorough:
-        free = [(seed, i, 400, 2500, 300) for i in range(nsh)]
-        cli = [(seed, i, k, 6) for i, k in enumerate(CLI_FIXED)] + [(seed, 50 + i, None, 6) for i in range(20)]
-    else:
-        free = [(seed, i, 20, 150, 30) for i in range(nsh)]
-        # (the first case Hypothesis generates is the all-minimal one, so never fewer than 3 per command line)
-        cli = [(seed, i, k, 3) for i, k in enumerate(CLI_FIXED)] + [(seed, 50 + i, None, 3) for i in range(4)]
-    common.parallel(shard_free, free, stats=stats)
-    common.parallel(shard_cli, cli, stats=stats)
     stats.exhaustive['cli-fixed'] = 'command lines: %s' % ('; '.join(' '.join(cli_config(*k)[0]) or '(none)' for k in CLI_FIXED),)
     return stats
